@@ -1,9 +1,10 @@
-"""C19 — abandoned or failing calls are cancelled and never wedge the server (M_rtc)."""
+"""C19 — abandoned or failing calls are cancelled and never wedge the server (M_rtc, M_rfn)."""
 from vlib.rtccheck import run_rtc
+from vlib.rfncheck import run_rfn, merge_coverage
 
 LEAN_MODULE = "RemocModel.Props.C19"
-LEAN_EXES = ["rtc"]
-HARNESS_BINS = ["rtc"]
+LEAN_EXES = ["rtc", "rfn"]
+HARNESS_BINS = ["rtc", "rfn"]
 THEOREMS = [
     "Remoc.Rtc.cancel_at_next_await",
     "Remoc.Rtc.cancel_enabled",
@@ -21,6 +22,18 @@ THEOREMS = [
     "Remoc.Rtc.f6_oversize_reply_stops_server",
     "Remoc.Rtc.f10_oversize_request_poisons_client",
     "Remoc.Rtc.fullinv_of_reachable",
+    # remote functions (M_rfn)
+    "Remoc.Rfn.rfn_no_pending_at_quiescence",
+    "Remoc.Rfn.rfn_error_has_cause",
+    "Remoc.Rfn.rfn_provider_stops_only_for_cause",
+    "Remoc.Rfn.rfn_provider_keeps_serving",
+    "Remoc.Rfn.rfn_calls_complete",
+    "Remoc.Rfn.rfn_internal_steps_terminate",
+    "Remoc.Rfn.rfn_cancel_at_next_await",
+    "Remoc.Rfn.rfn_cancel_enabled",
+    "Remoc.Rfn.rfn_cancel_at_next_await_partial",
+    "Remoc.Rfn.rfn_f1_not_cancelled_pinned",
+    "Remoc.Rfn.inv_of_reachable",
 ]
 RULE = ("same real runs as C12 (all server flavours and spawn modes, local and transported clients, hand-driven gates): call futures "
         "dropped before queueing / queued / waiting for the lock / executing / with the reply in flight, cancellable and #[no_cancel] "
@@ -29,10 +42,20 @@ RULE = ("same real runs as C12 (all server flavours and spawn modes, local and t
         "takes no method step after the quiescent point following the drop of its caller and is gone by then, #[no_cancel] executions "
         "are never dropped, the target RwLock is free whenever no execution is in progress, serve() keeps running, every call without "
         "a reason of its own to fail returns a value, nothing hangs; plus acceptance of every run on M_rtc. A case is non-trivial if a "
-        "call was abandoned, an execution dropped, a call failed or the connection was cut; distinct = distinct stimuli and results.")
+        "call was abandoned, an execution dropped, a call failed or the connection was cut; distinct = distinct stimuli and results. "
+        "Remote functions (second stage, same real runs as the rfn stage of C12): call futures dropped before queueing / queued behind "
+        "an executing request / waiting for a semaphore permit / executing / with the result in flight, provider dropped with calls "
+        "queued and executing, connection cut, handles dropped, requests and results that cannot be (de)serialised. Predicates: no call "
+        "is pending at the final quiescent point (hang detection), an execution takes no step after the quiescent point that follows "
+        "the drop of its caller or the loss of its connection, every call without a reason of its own to fail (provider dropped, "
+        "connection lost, sender failed by an unserialisable argument, untransmittable argument/result, handle gone, RFnOnce used) "
+        "returns a value; plus replay on M_rfn (variant cancel=false for the code as it is, cancel=true once the cancellation exists). "
+        "Non-trivial: a call was abandoned or failed, the provider was dropped or the connection cut.")
 TRUSTED_BASE = [
     "M_rtc (lean/RemocModel/Rtc/Model.lean), see C12; liveness is judged at quiescence with method bodies making progress on their own",
     "harness (harness/src/rtcworld.rs, rtcgens.rs) and driver (lean/Driver/Rtc.lean)",
+    "M_rfn (lean/RemocModel/Rtc/Rfn.lean), see C12; liveness judged at quiescence with the function body making progress on its own "
+    "(execStep internal), rfn harness (harness/src/rfnworld.rs) and driver (lean/Driver/Rfn.lean)",
 ]
 ASSUMPTIONS = ["single-threaded paused Tokio runtime: sleep(1ns) returns at quiescence (hang detection: what is pending then never completes)"]
 LEVEL_TEXT = ("Lean 4 theorems over M_rtc for all label lists / flavours / policies: after the reply sender observes closed() a cancellable "
@@ -41,12 +64,30 @@ LEVEL_TEXT = ("Lean 4 theorems over M_rtc for all label lists / flavours / polic
               "unknown methods, over-size requests never stop it), at quiescence nothing is pending and every call without a cause of its "
               "own has a value. The snapshot stopped the server on an over-size reply (defect F6, repaired in /repo f05ad37; the runs are now "
               "accepted by the model's `fixed` variant and reverting the repair is reported) and the code fails a client permanently after "
-              "an over-size request (known finding F10): kernel-checked witnesses, F10 reproduced from the real code on every run.")
-LEVEL_NOTE = ("Trusted: Lean kernel, M_rtc, harness/driver. Eventual completion assumes scheduler fairness; the harness's quiescence "
-              "detector checks it on the real runs.")
+              "an over-size request (known finding F10): kernel-checked witnesses, F10 reproduced from the real code on every run. "
+              "Remote functions (M_rfn, all label lists, all three flavours): at quiescence no call is pending, every call has a value or an "
+              "error (rfn_no_pending_at_quiescence: after provider drop, connection loss or a failed send the request and with it its "
+              "result sender are dropped), internal steps terminate (rfn_internal_steps_terminate, explicit measure), errors have causes "
+              "and calls without one return values (rfn_error_has_cause, rfn_calls_complete), the provider task ends only for a cause "
+              "(rfn_provider_stops_only_for_cause, rfn_provider_keeps_serving). Cancellation: proved for the documented behaviour "
+              "(rfn_cancel_at_next_await, rfn_cancel_enabled on the variant cancel=true); the code as it is never races the function "
+              "against result_tx.closed() (known finding F-RFN-1, kernel-checked witness rfn_f1_not_cancelled_pinned, reproduced from the "
+              "real code on every run; rfn_cancel_at_next_await_partial states what does hold).")
+LEVEL_NOTE = ("Trusted: Lean kernel, M_rtc, M_rfn, harnesses/drivers. Eventual completion assumes scheduler fairness; the harness's quiescence "
+              "detector checks it on the real runs. Remote functions: the cancellation clause is partial for the code as it is (F-RFN-1: "
+              "abandoned executions run to completion; RFnMut stays busy with them, RFn keeps their permit); the check accepts either "
+              "variant and reports which one the tree matches.")
 TECHNIQUE = "Lean 4 invariant proofs over an LTS model + trace acceptor and execution-log predicates against the real crate"
 DESIGN_REF = "DESIGN.md section 5, C19"
 
 
 def run(ctx, replay=None):
-    run_rtc(ctx, "c19", replay)
+    # a replay file is an rtc script or an rfn script (header `case <name> fl=...`)
+    is_rfn = False
+    if replay:
+        with open(replay) as f:
+            is_rfn = any(l.startswith("case ") and " fl=" in l for l in f)
+    if not is_rfn:
+        run_rtc(ctx, "c19", replay)
+    if is_rfn or not replay:
+        merge_coverage(ctx, run_rfn(ctx, "c19", replay))
